@@ -71,8 +71,6 @@ def positioned_nodes(tree):
 def classify_program(stored, raw):
     """Narrow signatures of the known findings, from the (minimised) failing program."""
     lines = raw.split("\n")
-    if "_pos=" in stored:  # tested first: the decorated-async-def finding is repaired (d0d94f6), this one is open
-        return SIG_POSSTR
     if re.search(r"(?m)^\s*@.*\bfor\b.+\bin\b", stored):
         return SIG_DECOSCOPE
     for m in re.finditer(r"(?i)#\s*paroxython\s*:\s*(.*)", raw):
@@ -81,6 +79,8 @@ def classify_program(stored, raw):
                 return SIG_HINTPATH
     if re.search(r"(?m)^\s*@.*\n\s*async\s+def\b", stored):  # repaired (d0d94f6): tested last, the open findings first
         return SIG_ASYNC
+    if "_pos=" in stored:  # repaired (b1d74a8): after the open findings, so that a harmless `_pos=` literal does not mask them
+        return SIG_POSSTR
     return None
 
 
